@@ -251,6 +251,8 @@ pub fn run_check(prop: &str, tier: Tier, seed: u64) -> i32 {
 		"C09" => c09(tier, seed),
 		"C12" => c12(tier, seed),
 		"C07" => c07(tier, seed),
+		"C14" => types_check("C14", tier, seed),
+		"C15" => types_check("C15", tier, seed),
 		"C02" => c02(tier, seed),
 		"C08" => c08(tier, seed),
 		"C10" => c10(tier, seed),
@@ -517,6 +519,30 @@ pub fn replay(path: &str) -> i32 {
 			let mut f = mine(&prop, &r);
 			f.extend(post_findings(&prop, &AnyCase::Conc(case), &r));
 			f
+		}
+		"types" => {
+			let pair: crate::tyeng::Pair = match serde_json::from_value(c["pair"].clone()) {
+				Ok(p) => p,
+				Err(e) => {
+					eprintln!("bad types pair: {e}");
+					return 2;
+				}
+			};
+			let tc = match crate::tyeng::Toolchain::locate() {
+				Ok(t) => t,
+				Err(e) => {
+					eprintln!("TYPES engine: {e}");
+					return 2;
+				}
+			};
+			let rep = types_report(&tc, &pair, false);
+			tc.cleanup();
+			if let Some(i) = rep.inconclusive {
+				println!("INCONCLUSIVE: {i}");
+				return 2;
+			}
+			println!("--- offending program ---\n{}", pair.offending);
+			rep.violations
 		}
 		_ => {
 			eprintln!("unknown engine in replay file");
@@ -1148,7 +1174,141 @@ fn c07(tier: Tier, seed: u64) -> i32 {
 		}
 	});
 	ctx.extra.insert("exhaustive_slice".into(), json!(format!("all member lists of length 0..={maxlen} over 4 RwLock leaves x {{Boxed, Ref, Retry}}::try_new")));
+	// second sentence of the property: the unchecked constructors only accept owned inputs
+	{
+		let tc = crate::tyeng::Toolchain::locate();
+		match tc {
+			Ok(tc) => {
+				let pairs = types_pairs("C07");
+				let items: Vec<usize> = (0..pairs.len()).collect();
+				ctx.enumerate("types-unchecked-ctor-needs-owned-input", items, |i, want| types_report(&tc, &pairs[*i], want));
+				tc.cleanup();
+			}
+			Err(e) => ctx.health_errors.push(format!("TYPES engine: {e}")),
+		}
+	}
+	ctx.require_label("types.rejected_on_marked_line", 30);
 	ctx.require_label("c07.dup_nonadjacent", 1000);
 	ctx.require_label("c07.dup_hidden_in_nested_or_wrapper", 1000);
+	ctx.finish()
+}
+
+
+// ---------------------------------------------------------------------------
+// TYPES
+
+pub fn types_pairs(prop: &str) -> Vec<crate::tyeng::Pair> {
+	match prop {
+		"C14" => crate::tyeng::families_c14(),
+		"C15" => crate::tyeng::families_c15(),
+		"C07" => crate::tyeng::families_c07(),
+		_ => vec![],
+	}
+}
+
+fn types_report(tc: &crate::tyeng::Toolchain, p: &crate::tyeng::Pair, want: bool) -> CaseReport {
+	use crate::tyeng::PairOutcome;
+	let out = crate::tyeng::judge(tc, p);
+	let mut rep = CaseReport { fp: fp_str(&format!("{}|{}", p.family, p.name)), ..Default::default() };
+	rep.labels.push(format!("types.family.{}", p.family));
+	let prop: &'static str = match p.prop.as_str() {
+		"C14" => "C14",
+		"C15" => "C15",
+		_ => "C07",
+	};
+	match &out {
+		PairOutcome::Held { codes } => {
+			rep.nontrivial = true;
+			rep.labels.push("types.rejected_on_marked_line".into());
+			for c in codes {
+				rep.labels.push(format!("types.code.{c}"));
+			}
+		}
+		PairOutcome::BothReject => {
+			rep.nontrivial = true;
+			rep.labels.push("types.d8.both_reject".into());
+		}
+		PairOutcome::StdAcceptsToo => {
+			rep.labels.push("types.d8.std_accepts_too(not asserted)".into());
+		}
+		PairOutcome::Accepted => {
+			rep.nontrivial = true;
+			let short = p.name.split(" payload=").next().unwrap_or(&p.name).to_string();
+			let sig = if p.std_offending.is_some() {
+				format!("accepted-but-std-rejects|{}|{}", p.family, p.name)
+			} else {
+				format!("accepted|{}|{}", p.family, short)
+			};
+			rep.violations.push(Finding {
+				prop,
+				sig,
+				detail: format!("the offending program of family {} ({}) compiles against the current tree", p.family, p.name),
+				step: None,
+				tid: 0,
+			});
+			rep.replay = Some(json!({"engine": "types", "pair": p}));
+		}
+		PairOutcome::GeneratorError(e) => {
+			rep.labels.push("types.generator_error".into());
+			rep.inconclusive = Some(format!("generator error in {} / {}: {}", p.family, p.name, e.chars().take(300).collect::<String>()));
+		}
+	}
+	if want && rep.nontrivial {
+		rep.sample = Some(json!({"family": p.family, "name": p.name, "outcome": format!("{out:?}").chars().take(200).collect::<String>(), "twin": p.twin, "offending": p.offending}));
+	}
+	rep
+}
+
+pub fn types_campaign(ctx: &mut CheckCtx, prop: &str, tier: Tier, quick_n: u64) -> bool {
+	let tc = match crate::tyeng::Toolchain::locate() {
+		Ok(t) => t,
+		Err(e) => {
+			ctx.health_errors.push(format!("TYPES engine: {e}"));
+			return false;
+		}
+	};
+	let pairs = types_pairs(prop);
+	let total = pairs.len();
+	match tier {
+		Tier::Quick => {
+			let seed = ctx.seed;
+			// proptest-driven sampling of the template product
+			let n = quick_n.min(total as u64);
+			ctx.search("types-sampled-pairs", n, 8, |bytes, want| {
+				let mut src = Src::new(bytes);
+				let hi = src.byte() as usize;
+				let lo = src.byte() as usize;
+				let mid = src.byte() as usize;
+				let idx = ((hi << 16 | mid << 8 | lo) as u64).wrapping_add(seed) as usize % total.max(1);
+				types_report(&tc, &pairs[idx], want)
+			});
+		}
+		Tier::Thorough => {
+			let items: Vec<usize> = (0..total).collect();
+			ctx.enumerate("types-full-product", items, |i, want| types_report(&tc, &pairs[*i], want));
+			ctx.exhaustive = Some(true);
+		}
+	}
+	ctx.extra.insert("programs_in_product".into(), json!(total));
+	let ge = ctx.stats.labels.get("types.generator_error").copied().unwrap_or(0);
+	if ge * 50 > ctx.stats.evaluations.max(1) {
+		ctx.health_errors.push(format!("TYPES generator health: {ge} of {} pairs unusable: {:?}", ctx.stats.evaluations, ctx.stats.inconclusive_reasons.iter().take(3).collect::<Vec<_>>()));
+	}
+	tc.cleanup();
+	true
+}
+
+fn types_check(prop: &'static str, tier: Tier, seed: u64) -> i32 {
+	let mut ctx = CheckCtx::new(prop, "exploration", tier, seed);
+	ctx.assumptions = vec![
+		"rustc's accept/reject verdict on a library crate is the ground truth for 'safe Rust accepts this program'".into(),
+		"the rlib used is the one the check script just rebuilt from /repo's working tree".into(),
+	];
+	ctx.rule = match prop {
+		"C14" => "TYPES: client programs generated from a grammar (lock kind x Poisonable x collection kind x container x escape route K1..K11: key moved/lent to another thread, locking through &ThreadKey, clone/copy/use-after-move, key forgery (struct literal, Keyable impls, sealed path), guard APIs given &mut key, nested scoped calls on one key, key used inside its own closure, private key fields of guards, sending key-holding guards, moving holds out of a collection guard before unlock, key-less holds through unsafe trait methods from safe code). Every case is a pair: a twin that must compile and an offending program that differs only inside the marked region; verdict by rustc against the current tree: twin accepted, offending rejected with every primary error span inside the marked region. Quick: proptest-sampled pairs; thorough: the full product. Non-trivial = the twin compiled and the offending program got a verdict; distinct = (family, subject).".to_string(),
+		_ => "TYPES: client programs generated from a grammar (lock kind x Poisonable x collection kind x container x route D1..D8: reference outliving a guard, guard outliving its lock, reference escaping a scoped closure, shared access into an owned collection, unsafe-only entry points from safe code, &mut/by-value access while a guard lives, auto traits). D1-D7 are twin/offending pairs judged by rustc on the marked region. D8 is differential against std: for every position (Mutex, RwLock, Poisonable, every guard and ref type, every collection over owned and borrowed members, LockGuard, PoisonGuard, ...) x payload (i32, Cell, Rc, raw pointer, MutexGuard, Arc<Cell>) x {Send, Sync}, whenever the std counterpart is rejected the happylock type must be rejected too. Quick: proptest-sampled pairs; thorough: the full product. Non-trivial = the twin compiled and the offending program got a verdict (for D8: std rejected); distinct = (family, subject).".to_string(),
+	};
+	let quick_n = 320;
+	types_campaign(&mut ctx, prop, tier, quick_n);
 	ctx.finish()
 }
